@@ -6,6 +6,7 @@ PYTHONHASHSEED imports forml once and forks a fresh child for every (scenario, i
 """
 from __future__ import annotations
 
+import copy
 import itertools
 import json
 import os
@@ -1277,6 +1278,9 @@ class C20(fw.Check):
         cases = [(s, g, v) for s, g in corpus for v in ('update', 'read')]
         for _ in range(n):
             sources, groups = gen.stack()
+            if _ % 8 == 3:  # the same source twice in a row (C20_reread_idempotent); consumes no randomness
+                i = (_ // 8) % len(sources)
+                sources = sources[:i + 1] + [copy.deepcopy(sources[i])] + sources[i + 1:]
             cases.append((sources, groups, self.rng.choice(['update', 'update', 'update-kw', 'read', 'read', 'mixed'])))
         return cases
 
@@ -1293,6 +1297,21 @@ class C20(fw.Check):
             return ('error', type(e).__name__), None, False, None, eff
         spec = canon(spec_layer(list(reversed(eff)) + [{}]))
         return impl, spec, any(has_dup_list(s) for s in eff), cfg, eff
+
+    def _reread(self, sources, via, tmpdir, impl):
+        """C20_reread_idempotent on the real code: a source read twice in a row shows what reading it once shows."""
+        for i in range(len(sources) - 1):
+            if canon(untuple(sources[i])) != canon(untuple(sources[i + 1])):
+                continue
+            if via == 'mixed' and i == 0:
+                continue  # the defaults mapping and its copy in a file are not the same source (tuples)
+            once = self._conf_eval(sources[:i] + sources[i + 1:], via, tmpdir)[0]
+            if isinstance(once, dict) and once != impl:
+                d = conf_diff(impl, once, False)
+                where = '/'.join(d[1]) if d else '<root>'
+                return (f'Config stack ({via}): source #{i} read twice in a row differs at {where or "<root>"} from the stack '
+                        f'that reads it once')
+        return None
 
     def _sections(self, cfg, eff):
         """Resolve sections through the real setup.Runner/Registry with CONFIG patched; returns [(query, impl, spec)]."""
@@ -1480,6 +1499,9 @@ class C20(fw.Check):
                         sig, path, detail = d
                         self.violate(f'Config stack ({via}): at {"/".join(path) or "<root>"}: {detail}',
                                      {'kind': 'conf', 'raw': self._jsonable(eff), 'via': via}, sig, {'path': list(path)})
+                    rr = None if d else self._reread(sources, via, tmp, impl)
+                    if rr:
+                        self.violate(rr, {'kind': 'conf', 'raw': self._jsonable(eff), 'via': via}, 'conf-reread')
                     if groups:
                         sect = self._sections(cfg, eff)
                         msect = self._multi_sections(cfg, eff)
@@ -2302,6 +2324,9 @@ class C20(fw.Check):
                 d = conf_diff(impl, spec, dupes)
                 if d:
                     return fw.Violation(f'Config stack ({w["via"]}): at {"/".join(d[1])}: {d[2]}', w, d[0])
+                rr = self._reread(eff, w['via'], tmp, impl)
+                if rr:
+                    return fw.Violation(rr, w, 'conf-reread')
                 return None
             finally:
                 shutil.rmtree(tmp, ignore_errors=True)
